@@ -206,14 +206,16 @@ impl<T: Clone + Ord, U: Paving> Paving for Dim<T, U> {
                 continue;
             }
 
-            if self.cols.is_empty()
+            if (self.cols.is_empty()
                 || range.start < *self.cuts.first().unwrap()
-                || range.end > *self.cuts.last().unwrap()
+                || range.end > *self.cuts.last().unwrap())
+                && *val != Self::Value::default()
             {
                 // There is either no columns either an overlap before the
-                // first column or the last one. In these cases we just need
-                // to ensure the requested value is the default.
-                return *val == Self::Value::default();
+                // first column or the last one. In these cases the requested
+                // value has to be the default, columns that overlap with the
+                // range are checked below.
+                return false;
             }
 
             for ((col_start, col_end), col_val) in self
